@@ -201,12 +201,7 @@ def seeds(intern):
 
 
 def decoder_rejects(frame):
-    try:
-        m = kmessages.RequestMessage()
-        m.read(kutils.BytearrayStream(frame))
-        return False
-    except Exception:
-        return True
+    return ST.decoder_rejects(frame)       # consistent framing + accepted and fully consumed by the library's decoder
 
 
 def _fuzz(args):
@@ -309,7 +304,7 @@ def max_size(run):
             c = S.FakeConn(plain, cert=cert)
             S.run_session(drv.engine, c)
             n = len(c.sent[0])          # the length of the normal answer under this version
-            for m in [1, 8, 100, n - 8, n - 1, n, n + 1, n + 8, 10 ** 6, 2 ** 31 - 1]:
+            for m in [0, -1, -2 ** 31, 1, 8, 100, n - 8, n - 1, n, n + 1, n + 8, 10 ** 6, 2 ** 31 - 1]:
                 q = A.encode(A.build_request(D.one("Query", {}, maxsize=m, ver=ver), drv.intern), A.KV(ver))
                 c = S.FakeConn(q + base, cert=cert)
                 esc = S.run_session(drv.engine, c)
@@ -321,7 +316,7 @@ def max_size(run):
                         (kinds[0] == "ResponseTooLarge" and len(c.sent[0]) > max(m, ntl)):
                     run.violation("C12_max_response_size", {"m_vs_len": "over" if n > m else "within", "ver": ver[0] * 10 + ver[1]},
                                   {"maximum_response_size": m, "normal_response_length": n, "responses": kinds, "escaped": esc})
-        run.traces += 30
+        run.traces += 39
     finally:
         drv.close()
 
